@@ -5,6 +5,8 @@ Case format (sx):  [path, tr, lock, labels, second]        (decoded by coq/Run/C
          4 AsyncTCPNetworkClient.aclose  5 _ConnectedClientAPI.aclose  6 server client task teardown
          7 teardown after the request handler called client.aclose()
          8 AsyncTCPNetworkClient.aclose while a send_packet() task is still establishing the connection (send lock held)
+         9 client task teardown when client_connected_cb raises at call time
+         10 / 11 endpoint / client aclose with a half-received packet whose parser generator raises when closed
   tr     [0, base] | [1, [standard_compatible, unwrap_points, handshake_points], base]
   base   [0, leaf, m] (in-memory leaf transport whose aclose has m suspension points) | [1, send_half, recv_half]
          [0, leaf, 0, 1] = the real AsyncioTransportStreamSocketAdapter over a loopback TCP pair (fd observed);
@@ -267,6 +269,8 @@ def make_classes():
                     self.world.on_sender_armed.set()
                 await fut
                 return
+            if self.world.scripting and getattr(self.world, "send_fails", False):
+                raise OSError(104, "Connection reset by peer")
             if self.peer is not None:
                 self.peer.feed(data, immediate=not self.world.scripting)
             if self.world.scripting and self.peer is not None and self.peer.send_suspends:
@@ -279,6 +283,9 @@ def make_classes():
             pass
 
         async def recv(self, bufsize):
+            if self.world.reader_fut == "arm-partial":
+                self.world.reader_fut = "arm"
+                return b"abc"               # the start of a packet; the next read blocks
             if self.world.reader_fut == "arm":
                 fut = asyncio.get_running_loop().create_future()
                 self.world.reader_fut = fut
@@ -521,6 +528,8 @@ def run_case(inp, trace=None, cancel_at=None, info=None):
             # mode 0 -- unwrap_pts: 0 peer closed first and sends do not suspend; 1 recv suspends; 2 send and recv suspend
             # mode 1 -- unread application data in the SSL object: unwrap() writes the close_notify and fails with
             #           SSLError; the flush of that alert is the (single) suspension point: the peer does not read
+            # mode 2 -- shutdown_timeout = 0 and the wrapped transport's send_all() fails at once (peer reset): the scope is
+            #           cancelled on entry, the flush fails, OSError is swallowed, no checkpoint (unwrap_pts = 0)
             peer = TlsPeer(answer_close=1, send_suspends=(unwrap_pts >= 2 or tls_mode == 1))
 
         async def abuild(b):
@@ -616,7 +625,8 @@ def run_case(inp, trace=None, cancel_at=None, info=None):
 
         async def scene_wrap():
             return await AsyncTLSStreamTransport.wrap(lower, client_ctx(), server_side=False, server_hostname="localhost",
-                                                      standard_compatible=bool(tcfg[0]), shutdown_timeout=5.0,
+                                                      standard_compatible=bool(tcfg[0]),
+                                                      shutdown_timeout=(0.0 if (len(tcfg) > 3 and tcfg[3] == 2) else 5.0),
                                                       handshake_timeout=7.0)
 
         transport = lower
@@ -632,6 +642,8 @@ def run_case(inp, trace=None, cancel_at=None, info=None):
             t = loop.create_task(scene_wrap())
             sp.quiesce(until=t.done)
             transport = t.result()
+            if tls_mode == 2:
+                world.send_fails = True
             if tls_mode == 1:
                 peer.send_app_data([b"A" * 100, b"B" * 100])
                 t = loop.create_task(transport.recv(1))
@@ -644,19 +656,40 @@ def run_case(inp, trace=None, cancel_at=None, info=None):
         from easynetwork.protocol import StreamProtocol
         from easynetwork.serializers.line import StringLineSerializer
         proto = StreamProtocol(StringLineSerializer())
+        if path in (10, 11):
+            # a protocol whose parser generator has received the start of a packet and RAISES when it is closed
+            from easynetwork.serializers.abc import AbstractIncrementalPacketSerializer
+
+            class DirtySerializer(AbstractIncrementalPacketSerializer):
+                def serialize(self, packet):
+                    return b"x"
+
+                def deserialize(self, data):
+                    return data
+
+                def incremental_serialize(self, packet):
+                    yield b"x"
+
+                def incremental_deserialize(self):
+                    try:
+                        while True:
+                            yield
+                    except GeneratorExit:
+                        raise RuntimeError("parser clean-up failed") from None
+            proto = StreamProtocol(DirtySerializer())
         obj_is_closing = transport.is_closing
         api = None
         sender = None
         reader = None
-        if path in (0, 1, 6, 7):
+        if path in (0, 1, 6, 7, 9):
             closer = (lambda: transport.aclose()) if path == 0 else (lambda: aclose_forcefully(transport))
-        elif path == 3:
+        elif path in (3, 10):
             from easynetwork.lowlevel.api_async.endpoints.stream import AsyncStreamEndpoint
             ep = AsyncStreamEndpoint(transport, proto, max_recv_size=1024)
             closer, obj_is_closing = ep.aclose, ep.is_closing
             sender = (lambda: ep.send_packet("x")) if lock == 1 else None
-            reader = (lambda: ep.recv_packet()) if lock == 2 else None
-        elif path == 4:
+            reader = (lambda: ep.recv_packet()) if (lock == 2 or path == 10) else None
+        elif path in (4, 11):
             from easynetwork.clients.async_tcp import AsyncTCPNetworkClient
 
             class B(AsyncIOBackend):
@@ -669,7 +702,7 @@ def run_case(inp, trace=None, cancel_at=None, info=None):
             t.result()
             closer, obj_is_closing = client.aclose, client.is_closing
             sender = (lambda: client.send_packet("x")) if lock == 1 else None
-            reader = (lambda: client.recv_packet()) if lock == 2 else None
+            reader = (lambda: client.recv_packet()) if (lock == 2 or path == 11) else None
         elif path == 8:
             # the connection is still being established by a send_packet() task, which holds the send lock meanwhile
             from easynetwork.clients.async_tcp import AsyncTCPNetworkClient
@@ -703,7 +736,7 @@ def run_case(inp, trace=None, cancel_at=None, info=None):
         else:
             raise ValueError(path)
         in_handler = None
-        if path in (6, 7):
+        if path in (6, 7, 9):
             # the REAL AsyncStreamServer.serve / __client_coroutine around a request handler that (path 7) calls
             # client.aclose() of the server-side client API, over a listener that hands out our transport once
             from easynetwork.lowlevel.api_async.servers.stream import AsyncStreamServer
@@ -735,6 +768,9 @@ def run_case(inp, trace=None, cancel_at=None, info=None):
             server = AsyncStreamServer(listener, proto, 1024)
             want_lock = bool(lock)
 
+            def raising_cb(lowlevel_client):
+                raise RuntimeError("client_connected_cb failed before returning its generator")
+
             async def request_handler(lowlevel_client):
                 if path == 7:
                     sock = lowlevel_client.extra(INETSocketAttribute.socket)
@@ -752,7 +788,7 @@ def run_case(inp, trace=None, cancel_at=None, info=None):
 
             async def teardown():
                 try:
-                    await server.serve(request_handler)
+                    await server.serve(raising_cb if path == 9 else request_handler)
                 finally:
                     listener.closed = True
             closer = teardown
@@ -761,7 +797,7 @@ def run_case(inp, trace=None, cancel_at=None, info=None):
 
         reader_task = None
         if reader is not None:
-            world.reader_fut = "arm"
+            world.reader_fut = "arm-partial" if path in (10, 11) else "arm"
             reader_task = loop.create_task(reader())
             reader_task.add_done_callback(lambda t: t.cancelled() or t.exception())
             sp.quiesce()
@@ -851,7 +887,8 @@ def oracle(inp):
         return None      # closing the low-level endpoint while another task sends is refused by contract (BusyResourceError)
     what = {0: "transport.aclose", 1: "aclose_forcefully", 2: "tls wrap failure", 3: "endpoint.aclose",
             4: "client aclose", 5: "server-side client aclose", 6: "client task teardown",
-            7: "client task teardown", 8: "client aclose while connecting"}[path]
+            7: "client task teardown", 8: "client aclose while connecting", 9: "client task teardown (callback raised)",
+            10: "endpoint.aclose (parser clean-up raises)", 11: "client aclose (parser clean-up raises)"}[path]
     for i in want:
         if not flags[i]:
             where = "cancel at send-lock acquisition" if lock and 2 in labels[:1] else f"labels {labels[:used]}"
@@ -921,6 +958,7 @@ def shapes(thorough):
     # unread application data when the close starts: unwrap() fails after producing the alert, whose flush blocks
     for b in ([0, 0, 0], [0, 0, 1], [1, [0, 0, 1], [0, 1, 1]]):
         out.append([1, [1, 1, 0, 1], b])
+        out.append([1, [1, 0, 0, 2], b])    # shutdown_timeout = 0, send_all of the close_notify fails at once
     return out
 
 
@@ -946,8 +984,8 @@ def cases(tier, rng, escalate):
     thorough = tier == "thorough" or escalate
     for tr in shapes(thorough):
         is_tls = tr[0] == 1
-        for path in (0, 1, 3, 4, 5, 6, 7, 8):
-            if path == 8 and (is_tls or any(len(x) > 3 for x in ([tr[-1]] if tr[-1][0] == 0 else tr[-1][1:]))):
+        for path in (0, 1, 3, 4, 5, 6, 7, 8, 9, 10, 11):
+            if path in (8, 10, 11) and (is_tls or any(len(x) > 3 for x in ([tr[-1]] if tr[-1][0] == 0 else tr[-1][1:]))):
                 continue
             leaf_specs = [tr[-1]] if tr[-1][0] == 0 else [x for x in tr[-1][1:] if isinstance(x, list)]
             real_leaf = any(len(x) > 3 for x in leaf_specs)
@@ -961,7 +999,7 @@ def cases(tier, rng, escalate):
                 k = len(trace)
                 extra = 1 if backlog else 2      # handlers may reach further points once an earlier one failed
                 for labels in label_seqs(k + (extra if k else 0), thorough, rng):
-                    second = 0 if (lock == 1 or path in (6, 7)) else (2 if (len(labels) + path) % 2 else 1)
+                    second = 0 if (lock == 1 or path in (6, 7, 9)) else (2 if (len(labels) + path) % 2 else 1)
                     yield dict(input=[path, tr, lock, labels, second],
                                tags=[f"path{path}", "tls" if is_tls else "plain", "stapled" if tr[-1][0] == 1 else "leaf",
                                      ] + (["tls-unread-data"] if is_tls and len(tr[1]) > 3 and tr[1][3] == 1 else []) + [
